@@ -37,10 +37,15 @@ func (u *UseCase) UpdateTx(ctx context.Context, oldTxId, newTxId string, filter 
 		freeNodes = make([]*core.Node[model.File], 0, tx.Len())
 	)
 	defer func() {
+		// By now the all-store is unlocked again (or was never locked): its
+		// links must not be unlinked and recycled behind the back of its
+		// readers and writers.
+		u.allStore.Lock()
 		for _, n := range freeNodes {
 			link := n.DeleteLink()
 			u.nodePool.Release(link, n)
 		}
+		u.allStore.Unlock()
 		deleteFiles = append(deleteFiles, files...)
 	}()
 
